@@ -26,7 +26,7 @@ from eaopack.portfolio import Portfolio, StructuredAsset, LinkedAsset
 from .. import gen, scen, impl, pf, schema_gen
 from ..impl import Quiet, problem_json, err_class
 
-FORMS = ['plain', 'aware', 'array', 'index', 'ts', 'date']
+FORMS = ['plain', 'aware', 'array', 'index', 'ts', 'date', 'datearr']
 ZONES = ['CET', 'Europe/Berlin', 'US/Eastern', 'UTC', 'Asia/Kolkata']
 
 
@@ -87,6 +87,8 @@ def apply_form(scn, form, rnd):
                 return v
             return v
         _walk_args_all(scn, f)
+    elif form == 'datearr':
+        _datearr_form(scn, rnd)
     elif form == 'index':    # date lists of interval data as DatetimeIndex
         def f(k, v, a):
             if isinstance(v, dict) and 'start' in v and isinstance(v['start'], list) and v['start'] \
@@ -98,6 +100,23 @@ def apply_form(scn, form, rnd):
                 return v
             return v
         _walk_args_all(scn, f)
+
+
+def _datearr_form(scn, rnd):
+    """date lists of interval data as numpy date arrays of a random resolution ([D] only when all dates are midnights)"""
+    def f(k, v, a):
+        if isinstance(v, dict) and 'start' in v and isinstance(v['start'], list) and v['start'] \
+                and all(isinstance(x, dict) and '$dt' in x for x in v['start']) \
+                and (not isinstance(v.get('end'), list) or all(isinstance(x, dict) and '$dt' in x for x in v['end'])):
+            v = dict(v)
+            alld = [x['$dt'] for x in v['start']] + ([x['$dt'] for x in v['end']] if isinstance(v.get('end'), list) else [])
+            res = rnd.choice(['D', 's', 'us', 'ns'] if all(x.endswith('T00:00:00') for x in alld) else ['s', 'us', 'ns', 'm'])
+            v['start'] = {'$darr': [x['$dt'] for x in v['start']], 'res': res}
+            if isinstance(v.get('end'), list):
+                v['end'] = {'$darr': [x['$dt'] for x in v['end']], 'res': res}
+            return v
+        return v
+    _walk_args_all(scn, f)
 
 
 def _walk_args_all(scn, f):
@@ -167,6 +186,10 @@ def gen_case(rnd, i=0):
             a['args']['min_load_costs'] = gen.q8(rnd, 0.5, 3)
         if a['type'] == 'OrderBook' and rnd.random() < 0.5:
             a['df_orders'] = True
+        if a['type'] == 'ScaledAsset' and rnd.random() < 0.6:
+            # the scaled asset's OWN life time (the duration its fixed costs are charged for)
+            gen.put_window(a['args'], gen.window(rnd, g, kinds=['inside', 'start_only', 'end_only', 'straddle_end', 'straddle_start']))
+            a['args']['fix_costs'] = max(0.125, a['args'].get('fix_costs', 0))
     if extra == 1:
         scn['assets'].append(storage_all_options(rnd, g, scn['prices'], T, 'st_all', [scn['nodes'][0]]))
     if extra == 2 and len(scn['nodes']) >= 2:
@@ -597,7 +620,7 @@ def _eq(a, b):
 
 def gen_value(rnd, depth=0):
     """(value, whole_second) — a random value of the codec's domain"""
-    k = rnd.choice(['naive', 'aware', 'aware', 'date', 'arr', 'arr2', 'arrint', 'arrdate', 'idx', 'idxtz', 'idxfreq', 'dict', 'list', 'scalar', 'subsec'])
+    k = rnd.choice(['naive', 'aware', 'aware', 'date', 'arr', 'arr2', 'arrint', 'arrdate', 'arrdate_res', 'idx', 'idxtz', 'idxfreq', 'dict', 'list', 'scalar', 'subsec'])
     base = pd.Timestamp('2021-01-01') + pd.Timedelta(seconds=rnd.randrange(0, 3 * 365 * 86400))
     if k == 'naive':
         return (base.to_pydatetime() if rnd.random() < 0.5 else base), True
@@ -617,6 +640,10 @@ def gen_value(rnd, depth=0):
         return np.asarray([rnd.randint(-5, 5) for _ in range(rnd.randint(1, 5))]), True
     if k == 'arrdate':
         return np.asarray([np.datetime64(base + pd.Timedelta(hours=j), 'ns') for j in range(rnd.randint(1, 4))]), True
+    if k == 'arrdate_res':
+        # other resolutions than ns (np.arange over dates gives [D], an array of datetime objects [us])
+        res = rnd.choice(['D', 's', 'us', 'h', 'm'])
+        return np.asarray([np.datetime64(base.floor('D') + pd.Timedelta(days=j), res) for j in range(rnd.randint(1, 4))]), True
     if k == 'idx':
         return pd.DatetimeIndex([base + pd.Timedelta(hours=rnd.randint(0, 100)) for _ in range(rnd.randint(1, 4))]), True
     if k == 'idxtz':
